@@ -126,6 +126,9 @@ theorem C11_roundtrip_raw (pre rest data : List Byte) (h : 0 < data.length) :
       = ⟨.ok (data.length, data), pre.length + data.length, 0⟩ :=
   rt_raw data h pre rest
 
+example : 0 < [5#8, 6#8].length ∧
+    streamRead ([1#8] ++ writeRaw [5#8, 6#8] ++ [9#8]) 1 2 = ⟨.ok (2, [5#8, 6#8]), 3, 0⟩ := by decide
+
 /-- every value of every supported type, in any context: the matching read call returns it and consumes exactly the
     bytes written for it -/
 theorem C11_roundtrip_val (v : Val) (h : v.valid) :
